@@ -37,6 +37,34 @@ THEOREMS = [
     "Verif.C06.scan_pixel_counts",
     "Verif.C06.down_with_entry",
     "Verif.C06.cropF_refines_crop",
+    # deepening round D
+    "Verif.C06.getitem_validation",
+    "Verif.C06.getitem_resolves",
+    "Verif.C06.slice_window",
+    "Verif.C06.kwf_starts_sorted",
+    "Verif.C06.getitem_all",
+    "Verif.C06.down_entry_sum",
+    "Verif.C06.scan_getitem_validation",
+    "Verif.C06.scan_bound_resolution",
+    "Verif.C06.scan_getitem_refines",
+    "Verif.C06.time_to_frame_stop",
+    "Verif.C06.scan_time_window",
+    "Verif.C06.scan_stamp_start",
+    "Verif.C06.crop_crop_view",
+    "Verif.C06.flip_flip_view",
+    "Verif.C06.pySliceOpt_pySliceOpt",
+    "Verif.C06.slice_line_time",
+    "Verif.C06.down_entry_timestamps",
+    "Verif.C06.selecting_program_shows_window",
+    "Verif.C06.scan_program_shows_windows",
+    "Verif.C06.selecting_program_pixel_time",
+    "Verif.C06.scan_program_pixel_time",
+    "Verif.C06.crop_then_downsample",
+    "Verif.C06.flip_then_crop",
+    "Verif.C06.regular_ranges",
+    "Verif.C06.regular_establishes",
+    "Verif.C06.regular_row_step",
+    "Verif.C06.slice_then_downsample",
 ]
 RULE = (
     "kymographs and scans built from generated info waves (P<=5 pixels, <=6 lines/frames, k<=3 samples per pixel, "
@@ -44,12 +72,18 @@ RULE = (
     "<=3 (thorough) operations. Kymograph alphabet: time slices with bounds on/around every line start and stop "
     "(±1 ns, None), crop_by_distance with bounds that are multiples of 1/64 of the (dyadic) pixel size incl. "
     "negative / empty / beyond the end, flip, downsampled_by (time and position factors 1..3), calibrate_to_kbp. "
+    "Also kymo[item] as the user writes it: bounds None / integer timestamps / time strings (plain, decimal, composite, "
+    "odd spacing, malformed) counted from the start or back from the stop, on and 1 ns beside line starts, stepped slices "
+    "and scalars; start/stop of every view are observed. "
     "Scan alphabet: integer frame indices (negative, out of range), frame slices, spatial crops via __getitem__ and "
-    "crop_by_pixels, timestamp-based frame slices; both fast-axis orders, single- and multi-frame. Exhaustive over "
+    "crop_by_pixels, timestamp-based frame slices, scan[item] as the user writes it (frame bounds as index / timestamp / "
+    "time string, 0-2 spatial slices, refused items: steps, scalar spatial items, floats, lists); both fast-axis orders, "
+    "single- and multi-frame; start/stop of every view are observed. Exhaustive over "
     "the alphabet for length<=2 on fixed small objects, seeded random beyond. Non-trivial: the program changes the "
     "image (not the identity), or ends in an empty object / documented error."
 )
 TRUSTED = [
+    "time strings are read by the Timeindex model of C01 (Verif.C01.parseTime, proved and tied there); C06 sends the string itself to model and code",
     "skimage.measure.block_reduce (used by downsampled_by) is assumed to compute block sums; checked by the oracle on every case",
     "pixel sizes are dyadic (125, 250, 500 nm) and crop bounds multiples of 1/64 so that lower/px is exact in floating point; other quotients are outside the tie",
 ]
@@ -152,7 +186,27 @@ def kop_token(op):
         return f"downr:{op[1]}:{op[2]}:{op[3]}"
     if k == "kbp":
         return f"kbp:{enc_frac(op[1])}"
+    if k in ("get", "getstep"):
+        return f"{k}:{enc_kbound(op[1])}:{enc_kbound(op[2])}"
+    if k == "scalar":
+        return "scalar"
     raise ValueError(op)
+
+
+def enc_kbound(b):
+    """a bound of kymo[a:b] as written by the user: None, an integer timestamp, or a time string (sent as code points:
+    the model parses the string itself)"""
+    if b is None:
+        return "N"
+    if isinstance(b, str):
+        return "s" + ".".join(str(ord(c)) for c in b)
+    return str(int(b))
+
+
+def kymo_window(case):
+    """[start, stop) of the source kymograph: that of its info wave"""
+    start = case.get("start", bc.START)
+    return start, start + len(layout_of(case)) * case["dt"]
 
 
 def sop_token(op):
@@ -160,16 +214,27 @@ def sop_token(op):
     if k == "index":
         return "index:" + ":".join([str(op[1])] + [enc_opt(x) for x in op[2:6]])
     if k in ("slice", "cropxy"):
-        if k == "cropxy":  # crop_by_pixels(x0, x1, y0, y1) = slice(None), rows y, cols x
+        if k == "cropxy":  # crop_by_pixels(x0, x1, y0, y1): rows y, cols x; not a __getitem__ (start/stop are kept)
             x0, x1, y0, y1 = op[1:5]
-            return "slice:N:N:" + ":".join(enc_opt(x) for x in (y0, y1, x0, x1))
+            return "cropxy:" + ":".join(enc_opt(x) for x in (y0, y1, x0, x1))
         return "slice:" + ":".join(enc_opt(x) for x in op[1:7])
     if k == "slicet":
         return f"slicet:{enc_opt(op[1])}:{enc_opt(op[2])}"
+    if k == "get":  # scan[item] as the user writes it
+        fi, sp = op[1], op[2]
+        ftxt = {"i": lambda: f"i,{fi[1]}", "s": lambda: f"s,{enc_kbound(fi[1])},{enc_kbound(fi[2])}",
+                "sstep": lambda: f"sstep,{enc_kbound(fi[1])},{enc_kbound(fi[2])}", "o": lambda: "o"}[fi[0]]()
+        stxt = [{"s": lambda a=a: f"s,{enc_opt(a[1])},{enc_opt(a[2])}", "sstep": lambda a=a: f"sstep,{enc_opt(a[1])},{enc_opt(a[2])}",
+                 "i": lambda: "i", "o": lambda: "o"}[a[0]]() for a in sp]
+        return ":".join(["get", ftxt] + stxt)
     raise ValueError(op)
 
 
 def ops(case):
+    if case["kind"] == "regular":
+        lay = case["layout"]
+        t0 = case.get("start", bc.START) + lay["lead_in"] * case["dt"]
+        return [f"c06.regular {t0} {lay['P']} {lay['lines']} {lay['k']} {lay['dead']} {case['dt']}"]
     if case["kind"] == "kymo":
         img, ranges = kymo_reference(case)
         px = Fraction(case["pixel_nm"]) / 1000
@@ -178,13 +243,15 @@ def ops(case):
         st = case["layout"]["P"] * case["layout"]["k"] * case["dt"]
         head = (
             f"c06.kymo [{';'.join(','.join(f'{v}:{a}:{b}' for v, a, b in row) for row in img)}] "
-            f"{case['dt']} {enc_rat(px)} 0 {enc_rat(px)} {lt}/1 {st}/1 {case['layout']['k'] * case['dt']}"
+            f"{case['dt']} {enc_rat(px)} 0 {enc_rat(px)} {lt}/1 {st}/1 {case['layout']['k'] * case['dt']} "
+            f"{kymo_window(case)[0]} {kymo_window(case)[1]}"
         )
         return [head + "".join(" " + kop_token(o) for o in case["program"])]
     frames = scan_reference(case)
     ftxt = "|".join("[" + ";".join(",".join(f"{v}:{a}:{b}" for v, a, b in row) for row in f) + "]" for f in frames)
     fast_rows = 0 if case["fast"] < case["slow"] else 1
-    return [f"c06.scan {ftxt} {case['dt']} {fast_rows}" + "".join(" " + sop_token(o) for o in case["program"])]
+    w0, w1 = kymo_window(case)
+    return [f"c06.scan {ftxt} {case['dt']} {fast_rows} {w0} {w1}" + "".join(" " + sop_token(o) for o in case["program"])]
 
 
 # ------------------------------------------------------------------ implementation
@@ -193,7 +260,7 @@ def ops(case):
 def build(case):
     iw = layout_of(case)
     ch = {"red": case["counts"]}
-    if case["kind"] == "kymo":
+    if case["kind"] in ("kymo", "regular"):
         return bc.make_kymo(iw, case["layout"]["P"], ch, pixel_size_nm=case["pixel_nm"], dt=case["dt"], start=case.get("start", bc.START))
     return bc.make_scan(iw, case["layout"]["P"], case["layout"]["L"], ch, fast_axis=case["fast"], slow_axis=case["slow"],
                         scan_count=case.get("scan_count", 0), dt=case["dt"], start=case.get("start", bc.START))
@@ -215,6 +282,12 @@ def apply_kop(k, op):
         return k.downsampled_by(time_factor=op[2], position_factor=op[3], reduce={"max": np.max, "min": np.min, "ptp": np.ptp}[op[1]])
     if n == "kbp":
         return k.calibrate_to_kbp(float(Fraction(op[1])))
+    if n == "get":  # the item as the user writes it: None / integer timestamps / time strings
+        return k[op[1] : op[2]]
+    if n == "getstep":
+        return k[op[1] : op[2] : 2]
+    if n == "scalar":
+        return k[op[1]]
     raise ValueError(op)
 
 
@@ -234,6 +307,13 @@ def apply_sop(s, op):
         return s.crop_by_pixels(*op[1:5])
     if n == "slicet":
         return s[op[1] : op[2]]
+    if n == "get":
+        fi, sp = op[1], op[2]
+        frame = {"i": lambda: fi[1], "s": lambda: slice(fi[1], fi[2]), "sstep": lambda: slice(fi[1], fi[2], 2),
+                 "o": lambda: 1.5 if fi[1] == "float" else [0, 1]}[fi[0]]()
+        spatial = [{"s": lambda a=a: slice(a[1], a[2]), "sstep": lambda a=a: slice(a[1], a[2], 2), "i": lambda a=a: a[1],
+                    "o": lambda: 0.5}[a[0]]() for a in sp]
+        return s[(frame, *spatial)] if spatial else s[frame]
     raise ValueError(op)
 
 
@@ -278,7 +358,8 @@ def show_kymo(k):
     return (
         f"view img=[{rows}] ranges={rs} px={enc_rat(float(k.pixelsize[0]))} unit={unit} "
         f"pxum={'N' if pxum is None else enc_rat(float(pxum))} linetime={enc_rat(float(k.line_time_seconds))} "
-        f"ppl={int(k.pixels_per_line)} offset={offset} absent={absent_shape(k.get_image('green'))} pt={pt}"
+        f"ppl={int(k.pixels_per_line)} offset={offset} absent={absent_shape(k.get_image('green'))} pt={pt} "
+        f"start={int(k.start)} stop={int(k.stop)}"
     )
 
 
@@ -305,13 +386,23 @@ def show_scan(s):
     except IndexError:
         pt = "U"  # a derived scan reads it from a second pixel along the fast axis; there is none
     return (f"view frames={ftxt} ranges={rs} absent={'|'.join(absent_shape(x) for x in gf)} ts={ttxt} pt={pt} "
-            f"ppl={int(s.pixels_per_line)} lpf={int(s.lines_per_frame)}")
+            f"ppl={int(s.pixels_per_line)} lpf={int(s.lines_per_frame)} start={int(s.start)} stop={int(s.stop)}")
+
+
+def show_timing(k):
+    """line ranges and per-pixel timestamps of a freshly built kymograph (the acquisition timing the model's
+    `regularImg` describes)"""
+    rs = "[" + ",".join(f"{int(a)}:{int(b)}" for a, b in k.line_timestamp_ranges()) + "]"
+    ts = np.asarray(k.timestamps)
+    return f"ranges={rs} ts=[" + ";".join(",".join(str(int(v)) for v in row) for row in ts) + "]"
 
 
 def impl(case):
     try:
         with bc.quiet():
             obj = build(case)
+            if case["kind"] == "regular":
+                return [show_timing(obj)]
             show0 = show_kymo if case["kind"] == "kymo" else show_scan
             for op in case["program"]:
                 if case.get("ask_first", True):
@@ -381,9 +472,36 @@ def agree(case, i, ia, ma):
 
 # ------------------------------------------------------------------ oracle: the NumPy operation on the source image
 
+_UNIT_NS = {"d": 86400 * 10**9, "h": 3600 * 10**9, "m": 60 * 10**9, "s": 10**9, "ms": 10**6, "us": 10**3, "ns": 1}
+_UNIT_ORDER = ["d", "h", "m", "s", "ms", "us", "ns"]
+
+
+def plain_time_string_ns(text):
+    """nanoseconds meant by a time string of the plain documented form `[-]<number><unit>[ <number><unit>…]` with the
+    units in decreasing order (each term truncated to whole ns); None for anything else (not judged by the oracle)"""
+    import re
+
+    m = re.fullmatch(r"(-?)((?:\d*\.?\d+(?:ms|us|ns|d|h|m|s)(?: |$))+)", text)
+    if not m or text.endswith(" "):
+        return None
+    terms = re.findall(r"(\d*\.?\d+)(ms|us|ns|d|h|m|s)", m.group(2))
+    order = [_UNIT_ORDER.index(u) for _, u in terms]
+    if order != sorted(set(order)):
+        return None
+    total = sum(int(Fraction(v) * _UNIT_NS[u]) for v, u in terms)
+    return -total if m.group(1) else total
+
+
 
 def oracle(case, ia):
     ans = ia[0]
+    if case["kind"] == "regular":
+        # from a plain walk over the info wave: a line runs from its first used sample to one period past its last one,
+        # a pixel's timestamp is the (floored) mean of its first and last sample
+        img, ranges = kymo_reference(case)
+        want = ("ranges=[" + ",".join(f"{a}:{b}" for a, b in ranges) + "] ts=[" +
+                ";".join(",".join(str(a + (b - a) // 2) for _, a, b in row) for row in img) + "]")
+        return None if ans == want else f"timing of a regular kymograph: implementation {ans[:200]}, info wave says {want[:200]}"
     if case["kind"] == "kymo":
         img, ranges0 = kymo_reference(case)
         P0 = len(img)
@@ -396,6 +514,8 @@ def oracle(case, ia):
         status = "view"
         tf_total = 1
         import math
+        win = kymo_window(case)  # [start, stop) of the object a time string is relative to; None once it was sliced
+        first_start = None  # start of the first line of the latest time slice
 
         def cur_ranges():
             return [(int(tmn[0, j]), int(tmx[:, j].max()) + case["dt"]) for j in range(ref.shape[1])]
@@ -411,6 +531,31 @@ def oracle(case, ia):
                     status = "empty"
                     break
                 ref, tmn, tmx = ref[:, keep], tmn[:, keep], tmx[:, keep]
+                first_start, win = int(tmn[0, 0]), None
+            elif n in ("scalar", "getstep"):
+                status = "IndexError"  # refused whatever the state of the kymograph
+                break
+            elif n == "get":
+                if processed:
+                    status = "NotImplementedError"
+                    break
+                bounds = []
+                for bnd, open_end in ((op[1], -math.inf), (op[2], math.inf)):
+                    if bnd is None:
+                        bounds.append(open_end)  # an open bound excludes nothing
+                    elif isinstance(bnd, str):
+                        ns_ = plain_time_string_ns(bnd)
+                        if ns_ is None or win is None:
+                            return None  # not of the plain form, or relative to a slice whose stop the text leaves open
+                        bounds.append(win[0] + ns_ if ns_ >= 0 else win[1] + ns_)
+                    else:
+                        bounds.append(bnd)
+                keep = [j for j, (t0, _) in enumerate(cur_ranges()) if bounds[0] <= t0 < bounds[1]]
+                if not keep:
+                    status = "empty"
+                    break
+                ref, tmn, tmx = ref[:, keep], tmn[:, keep], tmx[:, keep]
+                first_start, win = int(tmn[0, 0]), None
             elif n in ("crop", "cropf"):
                 lo, hi = Fraction(op[1]), Fraction(op[2])
                 if lo < 0 or hi < 0:
@@ -477,6 +622,17 @@ def oracle(case, ia):
             wr = "[" + ",".join(f"{a}:{b}" for a, b in cur_ranges()) + "]"
             if f["ranges"] != wr:
                 return f"line ranges {f['ranges'][:200]} but the selected lines/pixels span {wr[:200]}"
+        # the object's own time window: contains every line it shows; a time slice starts with its first line and never
+        # reaches beyond its source
+        w0, w1 = kymo_window(case)
+        if not (w0 <= int(f["start"]) <= int(f["stop"]) <= w1):
+            return f"start/stop {f['start']}/{f['stop']} not inside the source's window {w0}/{w1}"
+        if tf_total == 1 and not any(o[0] == "flip" for o in case["program"]) and tmn[0, 0] > 0:
+            rr = cur_ranges()
+            if int(f["start"]) > rr[0][0] or int(f["stop"]) < rr[-1][1]:
+                return f"start/stop {f['start']}/{f['stop']} do not contain the lines shown, which span {rr[0][0]}..{rr[-1][1]}"
+        if first_start is not None and int(f["start"]) != first_start:
+            return f"start {f['start']} of a time slice is not the start {first_start} of its first line"
         # pixel time: that of the source times the position binning (every pixel of the generated info waves has the
         # same number of samples); gone with the per-pixel timestamps after binning in time; a processed kymograph
         # with a single pixel row cannot report one
@@ -511,9 +667,45 @@ def oracle(case, ia):
             return [(int(tmin[0].min()), int(tmax[0].max()) + case["dt"])]
         return [(int(a[0, 0]), int(b.max()) + case["dt"]) for a, b in zip(tmin, tmax)]
 
+    FIRST_TS = 1388534400000000000  # integers below it are frame indices
+    win = kymo_window(case)  # what a time string is relative to; None once a __getitem__ has re-stamped start/stop
+    stamped_first = None  # timestamp of pixel [0,0] of the first frame when start/stop were last stamped
     for op in case["program"]:
         n = op[0]
-        if n == "index":
+        if n == "get":
+            fi, sp = op[1], op[2]
+            if fi[0] in ("sstep", "o"):
+                status = "IndexError"
+                break
+            if fi[0] == "i":
+                try:
+                    sel = [range(len(cur))[fi[1]]]
+                except IndexError:
+                    status = "IndexError"
+                    break
+            else:
+                r = rng_of(tmin, tmax)
+                idx = []
+                for bnd, col in ((fi[1], 0), (fi[2], 1)):
+                    if isinstance(bnd, str):
+                        ns_ = plain_time_string_ns(bnd)
+                        if ns_ is None or win is None:
+                            return None  # not of the plain form / relative to a re-stamped window: left to the model
+                        bnd = win[0] + ns_ if ns_ >= 0 else win[1] + ns_
+                    if bnd is None or bnd < FIRST_TS:
+                        idx.append(bnd)
+                    else:
+                        idx.append(int(np.searchsorted([x[col] for x in r], bnd)))
+                sel = list(range(len(cur)))[idx[0] : idx[1]]
+            if any(a[0] != "s" for a in sp):
+                status = "IndexError"
+                break
+            if fi[0] == "s" and not sel:
+                status = "empty"
+                break
+            ys = slice(sp[0][1], sp[0][2]) if len(sp) > 0 else slice(None)
+            xs = slice(sp[1][1], sp[1][2]) if len(sp) > 1 else slice(None)
+        elif n == "index":
             i = op[1]
             try:
                 sel = [range(len(cur))[i]]
@@ -544,6 +736,8 @@ def oracle(case, ia):
         cur = new
         tmin = [tmin[j][ys, xs] for j in sel]
         tmax = [tmax[j][ys, xs] for j in sel]
+        if n != "cropxy":  # every __getitem__ stamps start/stop anew; crop_by_pixels keeps them
+            win, stamped_first = None, int(tmin[0][0, 0])
     if status != "view":
         return None if ans == status else f"program {case['program']}: expected {status}, implementation gave {ans[:200]}"
     f = fields(ans)
@@ -555,6 +749,12 @@ def oracle(case, ia):
     wr = "[" + ",".join(f"{a}:{b}" for a, b in rng_of(tmin, tmax)) + "]"
     if f["ranges"] != wr:
         return f"frame ranges {f['ranges'][:200]} but the selected frames/pixels span {wr[:200]}"
+    # the view's own window lies inside the source's; after a __getitem__ it starts with pixel [0,0] of its first frame
+    w0, w1 = kymo_window(case)
+    if not (w0 <= int(f["start"]) <= int(f["stop"])):
+        return f"start/stop {f['start']}/{f['stop']} not a window inside the source's, which starts at {w0}"
+    if stamped_first is not None and stamped_first > 0 and int(f["start"]) != stamped_first:
+        return f"start {f['start']} of an indexed scan is not the timestamp {stamped_first} of the first pixel of its first frame"
     # per-pixel timestamps: those of the selected source pixels (mean of a pixel's evenly spaced sample timestamps)
     wt = "|".join("[" + ";".join(",".join(str(int(a + (b - a) // 2)) for a, b in zip(ra, rb)) for ra, rb in zip(fa, fb)) + "]"
                   for fa, fb in zip(tmin, tmax))
@@ -578,7 +778,7 @@ def oracle(case, ia):
 
 
 def nontrivial(case, ia):
-    return len(case["program"]) > 0
+    return len(case["program"]) > 0 or case["kind"] == "regular"
 
 
 def tags(case, r):
@@ -656,7 +856,42 @@ def kymo_alphabet(case, rng=None, full=True):
             ops_.append(["downr", red, tf, pf])
     ops_.append(["kbp", str(Fraction(P) / 4)])
     ops_.append(["kbp", str(Fraction(P) * 2)])
+    ops_.extend(kymo_item_alphabet(case, ranges, rng if not full else None))
     return ops_
+
+
+def kymo_item_alphabet(case, ranges, rng=None):
+    """kymo[item] as a user writes it: None bounds, integer timestamps, time strings counted from the start or back from
+    the stop of the kymograph (on / one ns beside line starts; plain, decimal, composite, odd spacing, malformed), slices
+    with a step and scalar items (refused)"""
+    w0, w1 = kymo_window(case)
+    lines = list(range(len(ranges)))
+    if len(lines) > 3:
+        lines = [0, 1, len(ranges) - 1] if rng is None else sorted(rng.sample(lines, 3))
+    bounds = [None]
+    for j in lines:
+        a = ranges[j][0]
+        off, back = a - w0, w1 - a
+        forms = [f"{off}ns", f"{off // 1000}.{off % 1000:03d}us", f"{off // 1000}us {off % 1000}ns", f"{off + 1}ns",
+                 f"-{back}ns", f"-{back // 1000}.{back % 1000:03d}us", f"-{back - 1}ns", a]
+        if rng is not None:
+            forms = rng.sample(forms, 3)
+        bounds.extend(forms)
+    bounds.extend(["0s", f"{(w1 - w0) // 1000 + 1}us", "-0ns", ranges[-1][1]])
+    odd = ["", f" {ranges[0][0] - w0} ns", f"{(ranges[-1][0] - w0) // 1000}us\n", "1.5.2us", "abc", "1ns 1us", "5", "1us ", ".5ms", "1e3ns"]
+    out = []
+    for a, b in itertools.product(bounds, bounds):
+        out.append(["get", a, b])
+    for o in odd:
+        out.append(["get", o, None])
+        out.append(["get", None, o])
+    out.append(["getstep", None, None])
+    out.append(["getstep", ranges[0][0], ranges[-1][1]])
+    out.append(["scalar", ranges[0][0]])
+    out.append(["scalar", 0])
+    if rng is not None and len(out) > 30:
+        out = rng.sample(out, 30)
+    return out
 
 
 def float_crop_cases(quick, rng):
@@ -719,7 +954,41 @@ def scan_alphabet(case, rng=None):
         pts = rng.sample(pts, 6)
     for a, b in itertools.product([None] + pts, [None] + pts):
         ops_.append(["slicet", a, b])
+    ops_.extend(scan_item_alphabet(case, frames, tmin, tmax, rng))
     return ops_
+
+
+def scan_item_alphabet(case, frames, tmin, tmax, rng=None):
+    """scan[item] as a user writes it: frame slices whose bounds are None / frame indices / timestamps / time strings
+    counted from the start or back from the stop (on and one ns beside frame starts and stops), with 0-2 spatial slices;
+    steps, scalar spatial items, floats and lists (refused)"""
+    w0, w1 = kymo_window(case)
+    n = len(frames)
+    js = sorted({0, n - 1, n // 2})
+    bounds = [None, 0, 1, -1, n]
+    for j in js:
+        a, b = tmin[j], tmax[j]
+        forms = [a, b, f"{a - w0}ns", f"{(a - w0) // 1000}us {(a - w0) % 1000}ns", f"{a - w0 + 1}ns", f"{b - w0}ns", f"{b - w0 - 1}ns",
+                 f"-{w1 - b}ns", f"-{(w1 - a) // 1000}.{(w1 - a) % 1000:03d}us"]
+        if rng is not None:
+            forms = rng.sample(forms, 3)
+        bounds.extend(forms)
+    out = [["get", ["s", a, b], []] for a, b in itertools.product(bounds, bounds)]
+    if rng is not None and len(out) > 25:
+        out = rng.sample(out, 25)
+    spat = [[["s", 1, None]], [["s", None, None], ["s", None, -1]], [["s", 0, 1], ["s", 1, 2]], [["s", 5, None]]]
+    for sp in spat:
+        out.append(["get", ["s", None, None], sp])
+        out.append(["get", ["i", -1], sp])
+        out.append(["get", ["s", f"{tmin[0] - w0}ns", tmax[-1]], sp])
+    # refused items
+    out += [["get", ["sstep", None, None], []], ["get", ["sstep", 0, 2], [["s", None, None]]], ["get", ["o", "float"], []],
+            ["get", ["o", "list"], []], ["get", ["i", 0], [["i", 0]]], ["get", ["i", 0], [["s", None, None], ["i", 1]]],
+            ["get", ["s", None, None], [["sstep", None, None]]], ["get", ["s", None, None], [["s", None, None], ["o"]]],
+            ["get", ["i", n + 3], [["i", 0]]], ["get", ["sstep", None, None], [["i", 0]]],
+            ["get", ["s", "abc", None], []], ["get", ["s", None, "1ns 1us"], []], ["get", ["s", "", None], []],
+            ["get", ["s", " 5 ns", None], [["i", 0]]]]
+    return out
 
 
 def cases(tier, rng):
@@ -746,12 +1015,25 @@ def cases(tier, rng):
             yield dict(obj, stream="small-scope", program=[o])
         # second level: the alphabet is re-derived on a coarser grid to keep the product finite
         r2 = rng.fork("k2")
-        a1 = alpha if not quick else r2.sample(alpha, min(len(alpha), 40))
+        # pairs: the user-style items (hundreds of bound combinations at level one) enter with a sample
+        items = [o for o in alpha if o[0] in ("get", "getstep", "scalar")]
+        alpha2 = [o for o in alpha if o[0] not in ("get", "getstep", "scalar")] + r2.sample(items, min(len(items), 15))
+        a1 = alpha2 if not quick else r2.sample(alpha, min(len(alpha), 40))
         a2 = kymo_alphabet(obj, rng=r2, full=False)
         if quick:
             a2 = r2.sample(a2, min(len(a2), 40))
         for o1, o2 in itertools.product(a1, a2):
             yield dict(obj, stream="small-scope", program=[o1, o2])
+    # ---- acquisition timing of regular kymographs (what `regularImg` of the model claims; theorem regular_establishes)
+    for P, L, k, lead, dead, dt in itertools.product((1, 2, 3), (1, 2, 3), (1, 2, 3), (0, 2), (0, 1, 3), (12800, 16)):
+        if quick and (P + L + k + lead + dead) % 2 and dt == 16:
+            continue
+        yield dict(kymo_case(P, L, k, lead, dead, dt=dt), kind="regular", stream="small-scope", program=[])
+    rr = rng.fork("c06-regular")
+    for i in range(40 if quick else 600):
+        sub = rr.fork(i)
+        yield dict(kymo_case(sub.randint(1, 6), sub.randint(1, 7), sub.randint(1, 4), sub.randint(0, 4), sub.randint(0, 5),
+                             dt=sub.choice([12800, 1000, 16]), salt=i), kind="regular", stream="random", program=[], subseed=i)
     # ---- pixel sizes that are not binary fractions: the crop is executed in floating point (cropf)
     yield from float_crop_cases(quick, rng)
     sobjs = [scan_case(3, 2, 3, 1, 1, 1, 2, 0, 1), scan_case(2, 3, 2, 2, 0, 1, 0, 1, 0), scan_case(3, 3, 1, 1, 0, 1, 1, 0, 1)]
@@ -768,11 +1050,13 @@ def cases(tier, rng):
             yield dict(obj, stream="small-scope", program=[o])
         r2 = rng.fork("s2")
         light = quick or oi >= n_full
-        a1 = alpha if not light else r2.sample(alpha, min(len(alpha), 40 if oi < n_full else 15))
-        a2 = alpha if not light else r2.sample(alpha, min(len(alpha), 25 if oi < n_full else 12))
+        items = [o for o in alpha if o[0] == "get"]
+        alpha2 = [o for o in alpha if o[0] != "get"] + r2.sample(items, min(len(items), 10))
+        a1 = alpha2 if not light else r2.sample(alpha, min(len(alpha), 40 if oi < n_full else 15))
+        a2 = alpha2 if not light else r2.sample(alpha, min(len(alpha), 25 if oi < n_full else 12))
         for o1, o2 in itertools.product(a1, a2):
             # timestamps of the second op must be drawn for the derived object; keep index/slice/crop ops only
-            if o2[0] == "slicet":
+            if o2[0] == "slicet" or (o2[0] == "get" and o1[0] in ("index", "slice", "slicet", "get") and r2.chance(0.6)):
                 continue
             yield dict(obj, stream="small-scope", program=[o1, o2])
 
@@ -817,4 +1101,44 @@ def extra_coverage(results):
         kinds[r["case"]["kind"]] = kinds.get(r["case"]["kind"], 0) + 1
         for o in r["case"]["program"]:
             opsn[o[0]] = opsn.get(o[0], 0) + 1
-    return {"outcomes": outcomes, "operations": opsn, "object_kinds": kinds}
+    # branches of Kymo.__getitem__ as the user calls it, and whether the window invariant the theorems assume
+    # (every line inside [start, stop), lines in order and not overlapping) holds on the real objects
+    branches, wf = {}, {"holds": 0, "fails": 0, "not-applicable": 0}
+    sbranches = {}
+
+    def bkind(b):
+        if b is None:
+            return "None"
+        if isinstance(b, str):
+            return "string"
+        return "index" if abs(b) < 1388534400000000000 else "timestamp"
+
+    for r in results:
+        prog = r["case"]["program"]
+        if r["case"]["kind"] != "kymo":
+            if prog and prog[-1][0] == "get":
+                fi, sp = prog[-1][1], prog[-1][2]
+                a = r["impl"][0]
+                ftxt = fi[0] if fi[0] not in ("s", "sstep") else f"{fi[0]}({bkind(fi[1])},{bkind(fi[2])})"
+                key = f"scan[{ftxt}{''.join(',' + x[0] for x in sp)}] (op {len(prog)}) -> " + ("view" if a.startswith("view") else a.split(" ")[0])
+                sbranches[key] = sbranches.get(key, 0) + 1
+            continue
+        a = r["impl"][0]
+        if prog and prog[-1][0] in ("get", "getstep", "scalar"):
+            o = prog[-1]
+            kinds_ = "+".join("None" if b is None else ("string" if isinstance(b, str) else "timestamp") for b in o[1:3]) if o[0] != "scalar" else "-"
+            key = f"{o[0]}[{kinds_}] -> " + ("view" if a.startswith("view") else a.split(" ")[0])
+            branches[key] = branches.get(key, 0) + 1
+        f = fields(a)
+        if f is None or f.get("ranges") in (None, "undefined") or any(o[0] == "flip" for o in prog):
+            wf["not-applicable"] += 1
+            continue
+        rs = [tuple(int(x) for x in t.split(":")) for t in f["ranges"].strip("[]").split(",") if t]
+        if rs and rs[-1][0] <= 0:
+            wf["not-applicable"] += 1  # unfinished last line whose first shown pixel was never acquired
+            continue
+        ok = all(a0 < b0 for a0, b0 in rs) and all(rs[i][1] <= rs[i + 1][0] for i in range(len(rs) - 1)) and \
+            (not rs or (int(f["start"]) <= rs[0][0] and rs[-1][1] <= int(f["stop"])))
+        wf["holds" if ok else "fails"] += 1
+    return {"outcomes": outcomes, "operations": opsn, "object_kinds": kinds, "kymo_getitem_last_op_vs_final_outcome": branches, "scan_getitem_last_op_vs_final_outcome": sbranches,
+            "window_invariant_KWf_on_real_views": wf}
